@@ -89,7 +89,8 @@ class C13Events(Machine):
     assumptions = ["1e-9 relative slack on geometric bounds and weights",
                    "buggify violations are reported only when the minimised trace needs <=3 injected draws"]
     required_counters = ("probe.shadow_rejections", "fault.energy_raised", "probe.list_wrap",
-                         "fault.list_exhausted", "draws.injected", "probe.events_checked", "probe.resized")
+                         "fault.list_exhausted", "draws.injected", "probe.events_checked", "probe.resized",
+                         "draws.random_sample", "draws.rand")
 
     def draw_config(self, rng):
         kind = rng.pick(["cylindrical", "cylindrical", "rectangular", "rectangular", "list"])
